@@ -30,3 +30,12 @@ Print Assumptions C16_not_expansion.
 Theorem C16_or_expansion : or_expansion_statement.
 Proof. exact or_expansion_proof. Qed.
 Print Assumptions C16_or_expansion.
+
+(* try / catch: the clauses, for every kind form K and handler form B *)
+Theorem C16_catch_all_expansion : forall B, macro_expands_within 3 (s "catch-all") [B] (vec_to_list [vsym "test"; t_value; vsym "body"; B]).
+Proof. exact catch_all_expansion. Qed.
+Print Assumptions C16_catch_all_expansion.
+
+Theorem C16_catch_expansion : forall K B, macro_expands_within 5 (s "catch") [K; B] (catch_clause K B).
+Proof. exact catch_expansion. Qed.
+Print Assumptions C16_catch_expansion.
